@@ -817,6 +817,15 @@ def polarity(s: S, sign: int = +1, out: Optional[dict] = None, depth: int = 0) -
     if o == "recip":
         rec(a[0], -sign)
         return out
+    if o in ("inv", "not"):
+        # a boolean (0/1) factor: ~x = 1 - x falls when x rises
+        rec(a[0], -sign)
+        return out
+    if o in ("&", "and", "|", "or"):
+        for x in a:
+            if isinstance(x, S):
+                rec(x, sign)
+        return out
     if o in ("phi", "ifexp"):
         rec(a[1], sign)
         rec(a[2], sign)
